@@ -11,8 +11,9 @@ def M32 : Nat := 4294967296
 
 /-- `u32::wrapping_add`. -/
 def wadd (a b : Nat) : Nat := (a + b) % M32
-/-- `u32::wrapping_sub` (for `b < 2^32`). -/
-def wsub (a b : Nat) : Nat := (a + M32 - b) % M32
+/-- `u32::wrapping_sub` for `a, b < 2^32`. (Written without `a + 2^32`: adding a large literal to
+    an open term makes definitional unfolding peel the literal one successor at a time.) -/
+def wsub (a b : Nat) : Nat := if b ≤ a then a - b else M32 - (b - a)
 
 /-- `DEFAULT_WINDOW` (tcp.rs). -/
 def defaultWindow : Nat := 65535
